@@ -10,7 +10,8 @@ from vcheck import *
 def _src_hash():
     h = hashlib.sha256()
     roots = [os.path.join(REPO, "glass-easel-template-compiler", "src"), os.path.join(HARNESS, "src"),
-             os.path.join(VERIF, "jsrt"), os.path.join(VERIF, "lib", "behave.py")]
+             os.path.join(VERIF, "jsrt"), os.path.join(VERIF, "lib", "behave.py"), os.path.join(VERIF, "lib", "tsstrip.py"),
+             os.path.join(REPO, "glass-easel", "src", "tmpl", "range_list_diff.ts")]
     for r in roots:
         if os.path.isfile(r):
             h.update(open(r, "rb").read())
@@ -29,7 +30,8 @@ def canon(tree):
 
 def get_results(tier, seed, kind="behave"):
     """returns list of dict(job=..., run=<node result of the history>, fresh=[node results of create(Di)])"""
-    key = "%s_%s_%s_%s" % (kind, tier, seed, _src_hash())
+    rld = real_list_manager()
+    key = "%s_%s_%s_%s_%s" % (kind, tier, seed, _src_hash(), os.path.basename(rld)[4:12] if rld else "norld")
     d = os.path.join(CACHE, "behave")
     os.makedirs(d, exist_ok=True)
     path = os.path.join(d, key + ".pkl")
